@@ -55,6 +55,7 @@ pub enum Mode {
 #[derive(Clone, Copy, PartialEq, Eq, Debug)]
 enum TaskState {
     Runnable,
+    Blocked,
     Finished,
 }
 
@@ -85,6 +86,7 @@ pub struct Kernel {
     pct_changes: Vec<u64>,
     pct_low: i64,
     main_thread: Option<Thread>,
+    barrier_arrived: usize,
     // log
     pub steps: u64,
     pub switches: u64,
@@ -141,6 +143,7 @@ pub fn begin_run(mode: Mode, tracing: bool) {
         pct_changes: Vec::new(),
         pct_low: 0,
         main_thread: None,
+        barrier_arrived: 0,
         steps: 0,
         switches: 0,
         sched_hash: FNV_OFFSET,
@@ -278,6 +281,51 @@ impl Kernel {
     }
 }
 
+impl Kernel {
+    /// Release the barrier if every unfinished task has arrived.
+    fn maybe_release_barrier(&mut self) {
+        let unfinished = self.tasks.iter().filter(|t| t.state != TaskState::Finished).count();
+        if self.barrier_arrived > 0 && self.barrier_arrived >= unfinished {
+            for t in self.tasks.iter_mut() {
+                if t.state == TaskState::Blocked {
+                    t.state = TaskState::Runnable;
+                }
+            }
+            self.barrier_arrived = 0;
+        }
+    }
+}
+
+/// Simulated barrier over all unfinished tasks of the current `run_tasks` phase.
+pub fn barrier() {
+    let me = TASK.with(|t| t.get());
+    if me == MAIN {
+        return;
+    }
+    let handoff = {
+        let mut g = lock();
+        let k = g.as_mut().expect("no run in progress");
+        k.steps += 1;
+        k.sched_hash = fnv_bytes(fnv_u64(k.sched_hash, me as u64), b"<barrier>");
+        k.tasks[me].last_site = "<barrier>";
+        k.tasks[me].state = TaskState::Blocked;
+        k.barrier_arrived += 1;
+        k.maybe_release_barrier();
+        match k.pick_next(me) {
+            Some(next) if next != me => Some((next, k.tasks[next].thread.clone())),
+            Some(_) => None,
+            None => {
+                eprintln!("HARNESS-ERROR: barrier deadlock");
+                std::process::exit(2);
+            }
+        }
+    };
+    if let Some((next, th)) = handoff {
+        hand_to(next, th);
+        wait_for_baton(me);
+    }
+}
+
 // ---------------------------------------------------------------- public API
 
 /// A tape-recorded choice in 0..n. 0 must be the simplest alternative.
@@ -332,6 +380,9 @@ pub fn tracing() -> bool {
 }
 
 pub fn trace_line(s: String) {
+    if std::env::var_os("WFSIM_LIVE").is_some() {
+        eprintln!("[trace] {s}");
+    }
     with(|k| k.trace.push(s));
 }
 
@@ -390,6 +441,46 @@ fn hand_to(next: usize, thread: Thread) {
     thread.unpark();
 }
 
+/// A point at which the current task cannot make progress until some other task runs (it is
+/// spinning on a real lock held by a parked task): the scheduler must pick another runnable task.
+pub fn point_blocked(site: &'static str) {
+    let me = TASK.with(|t| t.get());
+    if me == MAIN {
+        std::thread::yield_now();
+        return;
+    }
+    let handoff = {
+        let mut g = lock();
+        let Some(k) = g.as_mut() else { return };
+        if k.tasks.is_empty() {
+            return;
+        }
+        k.steps += 1;
+        k.sched_hash = fnv_bytes(fnv_u64(k.sched_hash, me as u64), site.as_bytes());
+        k.tasks[me].last_site = site;
+        k.tasks[me].state = TaskState::Blocked;
+        // PCT: a yielding task drops below everyone else, or two spinners would starve the lock holder
+        k.pct_low -= 1;
+        k.tasks[me].prio = k.pct_low;
+        let next = k.pick_next(me);
+        k.tasks[me].state = TaskState::Runnable;
+        match next {
+            Some(next) => {
+                k.switches += 1;
+                Some((next, k.tasks[next].thread.clone()))
+            }
+            None => {
+                eprintln!("HARNESS-ERROR: task {me} spins at {site} but no other task is runnable");
+                std::process::exit(2);
+            }
+        }
+    };
+    if let Some((next, th)) = handoff {
+        hand_to(next, th);
+        wait_for_baton(me);
+    }
+}
+
 /// A scheduling point. No-op on threads that are not simulator tasks.
 pub fn point(site: &'static str) {
     let me = TASK.with(|t| t.get());
@@ -412,6 +503,9 @@ pub fn point(site: &'static str) {
             let pair = fnv_bytes(fnv_bytes(FNV_OFFSET, site.as_bytes()), to_site.as_bytes());
             k.switch_sig = k.switch_sig.wrapping_add(pair | 1);
             if TRACING.load(Ordering::Relaxed) {
+                if std::env::var_os("WFSIM_LIVE").is_some() {
+                    eprintln!("[trace]   -> switch t{me}@{site} => t{next}@{to_site}");
+                }
                 k.trace
                     .push(format!("  -> switch t{me}@{site} => t{next}@{to_site}"));
             }
@@ -476,6 +570,7 @@ pub fn run_tasks(fns: Vec<TaskFn>) -> Vec<Result<(), String>> {
                     let mut g = lock();
                     let k = g.as_mut().expect("run ended while task alive");
                     k.tasks[i].state = TaskState::Finished;
+                    k.maybe_release_barrier();
                     k.sched_hash = fnv_bytes(fnv_u64(k.sched_hash, i as u64), b"<fin>");
                     match k.pick_next(i) {
                         Some(nx) => (nx, k.tasks[nx].thread.clone()),
